@@ -640,25 +640,32 @@ func TestC08(t *testing.T) {
 			if !r.Thorough() && (si+ci)%2 != 0 {
 				continue
 			}
-			idx := i
-			i++
-			if !r.Mine(idx) || !r.Only(idx) {
-				continue
+			// quick: one timing class per script; thorough: every script under all three
+			tms := []string{timings[(si+ci)%3]}
+			if r.Thorough() {
+				tms = timings
 			}
-			c := c08Case{Script: sc, Candidate: cand, Timing: timings[(si+ci)%3], Lane: "script"}
-			c.Seed = fmt.Sprintf("seed=%d lane=%d case=%d", r.Seed, r.Lane, idx)
-			r.Begin(fmt.Sprint(idx), c)
-			key, msg, stats := runC08(c, r)
-			r.End(fmt.Sprint(idx))
-			r.Case(fmt.Sprintf("%v/%s/%s", c.Script, c.Candidate, c.Timing), true)
-			for k, v := range stats {
-				r.Obs(k, v)
-			}
-			if idx < 2 {
-				r.Sample(c)
-			}
-			if key != "" {
-				r.Violation(key, msg, c)
+			for _, tm := range tms {
+				idx := i
+				i++
+				if !r.Mine(idx) || !r.Only(idx) {
+					continue
+				}
+				c := c08Case{Script: sc, Candidate: cand, Timing: tm, Lane: "script"}
+				c.Seed = fmt.Sprintf("seed=%d lane=%d case=%d", r.Seed, r.Lane, idx)
+				r.Begin(fmt.Sprint(idx), c)
+				key, msg, stats := runC08(c, r)
+				r.End(fmt.Sprint(idx))
+				r.Case(fmt.Sprintf("%v/%s/%s", c.Script, c.Candidate, c.Timing), true)
+				for k, v := range stats {
+					r.Obs(k, v)
+				}
+				if idx < 2 {
+					r.Sample(c)
+				}
+				if key != "" {
+					r.Violation(key, msg, c)
+				}
 			}
 		}
 	}
@@ -695,7 +702,7 @@ func TestC08(t *testing.T) {
 		}
 	}
 	if r.Thorough() {
-		r.Exhaustive("all 4681 candidate scripts over the 8-symbol alphabet up to length 4, on both candidate kinds (the timing class per script is fixed)")
+		r.Exhaustive("all 4681 candidate scripts over the 8-symbol alphabet up to length 4, on both candidate kinds and under all three timing classes")
 	}
 	ng := r.N(24, 800)
 	for k := 0; k < ng; k++ {
